@@ -1049,6 +1049,7 @@ refine_body_stmt :
     | must_stmt
     | max_elements
     | min_elements
+    | presence_stmt
     | unknown_stmt
 
 refine_stmt : 
